@@ -277,19 +277,22 @@ Section Generic.
 
   (* whatever ask returns are the points of [ask_points]; a committing ask marks them pending *)
   Lemma ask_returns c s n commit hint pts imp :
-    snd (ask c s n commit hint) = Asked N pts imp -> pts = ask_points s n hint /\ 1 <= n.
+    snd (ask c s n commit hint) = Asked N pts imp -> pts = ask_points s n hint.
   Proof.
-    unfold ask. destruct n as [|n]; [discriminate|].
-    destruct (loss_improvement c s (S n)); [|discriminate].
-    cbn [snd]. intros H. inversion H. split; [reflexivity|lia].
+    unfold ask. destruct n as [|n].
+    - (* ask(0) answers ([], []) *)
+      cbn [snd]. intros H. inversion H. unfold ask_points. cbn [seq existsb]. reflexivity.
+    - destruct (loss_improvement c s (S n)); [|discriminate].
+      cbn [snd]. intros H. inversion H. reflexivity.
   Qed.
 
   Lemma ask_commits c s n hint pts imp p :
     snd (ask c s n true hint) = Asked N pts imp ->
     In p pts -> In p (pend (fst (ask c s n true hint))).
   Proof.
-    intros Hs Hp. destruct (ask_returns _ _ _ _ _ _ _ Hs) as [-> _]. revert Hs. unfold ask.
-    destruct n as [|n]; [discriminate|].
+    intros Hs Hp. pose proof (ask_returns _ _ _ _ _ _ _ Hs) as ->. revert Hs Hp. unfold ask.
+    destruct n as [|n]; [intros _ Hp; exfalso; unfold ask_points in Hp; cbn [seq existsb] in Hp; exact Hp|intros Hs Hp].
+    revert Hs.
     destruct (loss_improvement c s (S n)); [|discriminate]. intros _.
     cbn [fst]. rewrite fold_pending_pend. apply fold_insert_In. left; exact Hp.
   Qed.
